@@ -54,10 +54,11 @@ def replay(run, f, tv):
     q = tv["q"]
     if op == "init":
         N = float(tv["N"])
-        scale = {"ok": 1.0, "half": 0.5, "double": 2.0}[tv["gscale"]]
+        scale = {"ok": 1.0, "half": 0.5, "double": 2.0, "low": 9.0 / G, "high": 10.7 / G, "std": 9.81 / G}[tv["gscale"]]
         g_b = G * scale * np.array(tv["gdir"], float) / N
         hd = tv["decl"][2] * tv["incl"][2]
-        B_b = 0.1 * np.array(tv["bb"], float) / (N * hd)
+        bmag = {"low": 0.05, "high": 0.3}.get(tv["gscale"], 0.1)       # the field strength is not part of the attitude either
+        B_b = bmag * np.array(tv["bb"], float) / (N * hd)
         decl = math.atan2(tv["decl"][1], tv["decl"][0])
         x0, ret = f["initialize"](g_b, B_b, decl)
         x0 = np.array(x0).flatten(); ret = float(ret)
@@ -70,7 +71,7 @@ def replay(run, f, tv):
                     mrp_rot(x0[:3]), rot(q), tv)
             if float(x0[:3] @ x0[:3]) > 1 + 1e-9:
                 run.violation("initialize/mrp_norm", "initial MRP outside the unit ball", data)
-            if tv["gscale"] != "ok":
+            if tv["gscale"] in ("half", "double"):
                 run.spec_drift("initialize/gross_gravity_accepted", "initialisation accepted a gravity vector of half/double magnitude")
         else:
             run.count("init_rejected")
